@@ -50,6 +50,15 @@ def obligations(tier):
                       encoded=ENC,
                       bounds="one service step (read_message+process_message, as run() performs it) from any Inv state with the sender in each protocol state and 2 other modules (logger, ALL-monitor); receive outcome full/short/reset at header and at payload; names from a 3-element pool",
                       symbolic="every header field over its C range (msg_type, num_data_bytes, remaining_bytes int32; ids int16), control payload integers over their C ranges, module ids, dynamic-id cursor 0..99, unique flags")]
+    # the accept path of the real run() loop: a connection waiting on the listening socket in a round in which clients are ready too
+    acc = [{"f1": f1, "f2": f2, "s1": s1, "s2": 0, "rev": rev, "accept": 1}
+           for f1, f2 in (("data", "sub"), ("disc", "data"), ("suball", "data")) for s1 in (0, 2) for rev in (0, 1)]
+    if tier != "quick":
+        acc += [dict(a, f2dead=1) for a in acc]
+    obs.append(Obligation("accept_while_clients_are_ready", "harness.mgr_round", "rnd", acc, cond_timeout=120, path_timeout=30,
+                          reach="rnd_reach", reach_shards=[acc[0]], encoded=ENC + ["pyrtma.manager:MessageManager.run", "pyrtma.manager:MessageManager.generate_uid"],
+                          bounds="one round of the real run() loop: a new connection on the listening socket plus two ready clients (frame kinds as in C01's round harness), both service orders",
+                          symbolic="message type, payload size"))
     obs.append(Obligation("name_arbitrary_bytes", "harness.mgr_step", "c03_name", [{"ctrl": "CONNECT_V2"}, {"ctrl": "CLIENT_SET_NAME"}],
                           cond_timeout=120, reach="c03_name_reach", encoded=ENC + ["pyrtma.validators:String.__get__", "pyrtma.manager:MessageManager.set_module_name"],
                           bounds="name: arbitrary non-NUL bytes of length <= 3 (so non-ASCII included), rest of the frame concrete",
